@@ -364,7 +364,7 @@ def c06(tier, replay):
 # ---------------------------------------------------------------------------
 # C++ full codec legs
 # ---------------------------------------------------------------------------
-def _select_cpp(groups, tier, cap_quick=450, cap_thorough=12000):
+def _select_cpp(groups, tier, cap_quick=450, cap_thorough=5000):
     """C++ compile time bounds the number of schemas (about 10 ms each)."""
     import random
     cap = cap_quick if tier == "quick" else cap_thorough
@@ -550,7 +550,7 @@ def c18(tier, replay):
 def raw_leg(rep, vs, checks, tier, nbatch=12):
     pid = rep.pid
     all_groups = wire.group_vectors(vs)
-    groups = _select_cpp(all_groups, tier, cap_quick=3000 if checks == ["offsets"] else 800, cap_thorough=40000)
+    groups = _select_cpp(all_groups, tier, cap_quick=3000 if checks == ["offsets"] else 800, cap_thorough=15000)
     results = wire.run_batches(rawwire.worker, groups, vs, {"checks": checks, "scratch": scratch_dir("raw")},
                                nbatch=nbatch, timeout=3000)
     for r in results:
